@@ -2,13 +2,13 @@
    Model: smt/SatCore.v (faithful functional sat_core; theory, std::sort and fuel are parameters).
    Every theorem quantifies over ALL operation histories [ops] that respect the documented preconditions
    ([run_ok], the asserts of sat_core.cpp) and in which the model never raised its [ub] flag (C++ undefined
-   behaviour / corrupted watch lists: the gap named C07_no_ub_partial below), over every sort function that
-   returns a sorted permutation and every theory meeting [theory_contract].
+   behaviour / corrupted watch lists; that side condition is itself a theorem, see C07_no_undefined_behaviour_* below),
+   over every sort function that returns a sorted permutation and every theory meeting [theory_contract].
    [axioms (log s)] = clauses given to new_clause + the constant "variable 0 is false" + the no-goods of next();
    for histories without next() it is exactly the added clauses (C07_no_next_axioms_are_added_clauses). *)
 From Coq Require Import List Arith Bool ZArith Permutation Sorted.
 From ORatio Require Import smt.SatCoreBase smt.SatCoreSpec smt.SatCore smt.Rup
-  proofs.SatCoreInv_Proofs proofs.SatCoreRun_Proofs proofs.SatCoreLog_Proofs proofs.SatCoreThm_Proofs proofs.SatCoreDb_Proofs proofs.SatCoreNoUb_Proofs proofs.Rup_Proofs.
+  proofs.SatCoreInv_Proofs proofs.SatCoreRun_Proofs proofs.SatCoreLog_Proofs proofs.SatCoreThm_Proofs proofs.SatCoreDb_Proofs proofs.SatCoreNoUb_Proofs proofs.SatCoreWl_Proofs proofs.SatCoreWlThm_Proofs proofs.Rup_Proofs.
 Import ListNotations.
 
 (* (i) every value reported is a consequence of the axioms, the theory and the standing decisions *)
@@ -153,15 +153,60 @@ Theorem C07_database_and_root_literals_imply_every_axiom :
 Proof. exact @c07_database_complete. Qed.
 Print Assumptions C07_database_and_root_literals_imply_every_axiom.
 
-(* (v) the last sentence of the property.  FULL statement:
-     forall ops o ts, run_ok (ops ++ [o]) (init ts) = true -> let s := run ops (init ts) in
-       prop_q s = [] -> (forall v, v < nvars s -> value_var s v <> LU) ->
-       forall c, In c (added (log s)) -> sat_clause (asg_of s) c
-   PROVED below with two extra hypotheses, which are exactly the two-watched-literal completeness that is still open:
+(* (v) the last sentence of the property: with nothing left to propagate and every variable assigned, every clause
+   ever given to new_clause is satisfied.  PROVED IN FULL (no ub side condition, simplify_db included) for every network
+   whose theory records no lemma and reports no conflict - in particular the propositional network, which is the
+   instance the exact differential runs against the C++.  The proof carries the two-watched-literal invariant
+   (proofs/SatCoreWl*_Proofs.v: every live clause is in exactly the watch lists of the negations of its first two
+   literals, and a watched literal that is false, already propagated and not above the level in question has a true
+   partner assigned no later) through new_var, new_clause, assume, propagate with conflict analysis and
+   backjumping, pop, next, check and simplify_db.
+   [sort_key_sorted] is what record() needs from std::sort when it orders a learnt clause by decision level. *)
+Theorem C07_total_assignment_satisfies_added_clauses_when_theories_record_no_lemma :
+  forall (TS : Type) (T : asg -> Prop) sort thp thc (thpush thpop : TS -> TS) FUEL,
+  sort_contract sort ->
+  (forall (key : lit -> nat) l, StronglySorted (fun a b => key b <= key a) (sort (fun a b => Nat.ltb (key b) (key a)) l)) ->
+  theory_contract T thp thc ->
+  (forall ts a dl p, snd (fst (thp ts a dl p)) = [] /\ snd (thp ts a dl p) = None) ->
+  (forall ts a dl, snd (fst (thc ts a dl)) = [] /\ snd (thc ts a dl) = None) ->
+  forall ops o ts, run_ok sort thp thc thpush thpop FUEL (ops ++ [o]) (init ts) = true ->
+  prop_q (run sort thp thc thpush thpop FUEL ops (init ts)) = [] ->
+  (forall v, v < nvars (run sort thp thc thpush thpop FUEL ops (init ts)) ->
+             value_var (run sort thp thc thpush thpop FUEL ops (init ts)) v <> LU) ->
+  forall c, In c (added (log (run sort thp thc thpush thpop FUEL ops (init ts)))) ->
+  sat_clause (asg_of (run sort thp thc thpush thpop FUEL ops (init ts))) c.
+Proof. exact @c07_total_assignment_satisfies_added_clauses. Qed.
+Print Assumptions C07_total_assignment_satisfies_added_clauses_when_theories_record_no_lemma.
+
+(* the same for the extracted instance (insertion sort, no theory), hypotheses discharged *)
+Theorem C07_total_assignment_satisfies_added_clauses_propositional :
+  forall fuel ops o,
+  let s := run (@isort lit) nt_propagate nt_check nt_id nt_id fuel ops p_init in
+  run_ok (@isort lit) nt_propagate nt_check nt_id nt_id fuel (ops ++ [o]) p_init = true ->
+  prop_q s = [] -> (forall v, v < nvars s -> value_var s v <> LU) ->
+  forall c, In c (added (log s)) -> sat_clause (asg_of s) c.
+Proof. exact c07_total_assignment_propositional. Qed.
+Print Assumptions C07_total_assignment_satisfies_added_clauses_propositional.
+
+(* the invariant itself *)
+Theorem C07_two_watched_literals_invariant_when_theories_record_no_lemma :
+  forall (TS : Type) (T : asg -> Prop) sort thp thc (thpush thpop : TS -> TS) FUEL,
+  sort_contract sort ->
+  (forall (key : lit -> nat) l, StronglySorted (fun a b => key b <= key a) (sort (fun a b => Nat.ltb (key b) (key a)) l)) ->
+  theory_contract T thp thc ->
+  (forall ts a dl p, snd (fst (thp ts a dl p)) = [] /\ snd (thp ts a dl p) = None) ->
+  (forall ts a dl, snd (fst (thc ts a dl)) = [] /\ snd (thc ts a dl) = None) ->
+  forall ops o ts, run_ok sort thp thc thpush thpop FUEL (ops ++ [o]) (init ts) = true ->
+  WL (decision_level (run sort thp thc thpush thpop FUEL ops (init ts))) None (run sort thp thc thpush thpop FUEL ops (init ts)).
+Proof. exact @c07_watch_invariant. Qed.
+Print Assumptions C07_two_watched_literals_invariant_when_theories_record_no_lemma.
+
+(* for a theory that does record lemmas (v) is proved with two extra hypotheses (a lemma recorded by a theory would need a
+   level condition in the theory contract to keep the watch invariant; not attempted):
      ub s = false                                  (no dangling / corrupted watch was ever produced)
      every live clause has a true literal          (what quiescent propagation over a total assignment must establish)
    Both are checked on the real implementation by tools/checks/c07.py on every quiescent total assignment it reaches
-   (K2: "full" - every clause ever added is evaluated directly) and the model's ub flag is compared on every history. *)
+   (K2: "full" - every clause ever added is evaluated directly). *)
 Theorem C07_total_assignment_satisfies_added_clauses_partial :
   forall (TS : Type) (T : asg -> Prop) sort thp thc (thpush thpop : TS -> TS) FUEL,
   sort_contract sort -> theory_contract T thp thc ->
@@ -175,12 +220,31 @@ Theorem C07_total_assignment_satisfies_added_clauses_partial :
 Proof. exact @c07_total_assignment_satisfies_added_clauses_partial. Qed.
 Print Assumptions C07_total_assignment_satisfies_added_clauses_partial.
 
-(* the side condition `ub = false` of the theorems above is itself a THEOREM for every history that does not call
-   simplify_db: no operation of the search side (new_var, new_clause, assume, propagate with conflict analysis and
-   backjumping, pop, next, check) ever reads back() of an empty vector, lits[0]/lits[1] of a too short clause, pops at
-   root level or records an empty clause.  For simplify_db (clause::simplify / clause::remove) the same claim needs the
-   two-watched-literal completeness and is open:
-     C07_no_ub (FULL): forall ops ts, run_ok ops (init ts) = true -> ub (run ops (init ts)) = false *)
+(* the side condition `ub = false` of the theorems above is itself a THEOREM:
+   (a) for every history, simplify_db included, when the theory records no lemma and reports no conflict: no operation
+       reads back() of an empty vector, lits[0]/lits[1] of a too short clause, pops at root level, records an empty
+       clause, and clause::simplify never drops a watched literal / clause::remove finds the clause in both of its watch
+       lists and leaves no dangling watcher behind; *)
+Theorem C07_no_undefined_behaviour_when_theories_record_no_lemma :
+  forall (TS : Type) (T : asg -> Prop) sort thp thc (thpush thpop : TS -> TS) FUEL,
+  sort_contract sort ->
+  (forall (key : lit -> nat) l, StronglySorted (fun a b => key b <= key a) (sort (fun a b => Nat.ltb (key b) (key a)) l)) ->
+  theory_contract T thp thc ->
+  (forall ts a dl p, snd (fst (thp ts a dl p)) = [] /\ snd (thp ts a dl p) = None) ->
+  (forall ts a dl, snd (fst (thc ts a dl)) = [] /\ snd (thc ts a dl) = None) ->
+  forall ops ts, run_ok sort thp thc thpush thpop FUEL ops (init ts) = true ->
+  ub (run sort thp thc thpush thpop FUEL ops (init ts)) = false.
+Proof. exact @c07_no_ub. Qed.
+Print Assumptions C07_no_undefined_behaviour_when_theories_record_no_lemma.
+
+Theorem C07_no_undefined_behaviour_propositional :
+  forall fuel ops, run_ok (@isort lit) nt_propagate nt_check nt_id nt_id fuel ops p_init = true ->
+  ub (run (@isort lit) nt_propagate nt_check nt_id nt_id fuel ops p_init) = false.
+Proof. exact c07_no_ub_propositional. Qed.
+Print Assumptions C07_no_undefined_behaviour_propositional.
+
+(* (b) for every theory meeting the contract, for every history that does not call simplify_db.  What is left open is
+       exactly: simplify_db in a network whose theories have recorded lemmas. *)
 Theorem C07_no_ub_partial :
   forall (TS : Type) (T : asg -> Prop) sort thp thc (thpush thpop : TS -> TS) FUEL,
   sort_contract sort -> theory_contract T thp thc ->
